@@ -894,6 +894,8 @@ pub fn do_special(w: &mut World, kind: &str, a: u64, b: u64, c: u64) -> VResult<
         "forge_ext" => crate::c10::do_forge_ext_update(w, 0, a as usize),
         "forge_ref" => crate::c10::do_forge_ref_add(w, a as usize, c as usize, b),
         "custom_type" => crate::codec::do_custom_type(w, a as usize, c as usize, b),
+        "psk_rotate" => do_psk_rotate(w, a, b),
+        "crafted_verify" => do_crafted_verify(w, a as usize, b),
         "forge" => crate::c10::do_forge(w, a as usize, 0, b, c as usize),
         "sflip" => crate::codec::do_stored_flip(w, a as usize, c as usize, b),
         "observe" => crate::observer::do_observe(w, a as usize, b),
@@ -2334,6 +2336,150 @@ pub fn do_clear_cache(w: &mut World, p: usize, g: usize) -> VResult<bool> {
         if m.epoch == epoch && m.sender != p && !m.private && !w.parties[p].mems[g].inbox.contains(&id) {
             w.parties[p].mems[g].inbox.push(id);
         }
+    }
+    Ok(true)
+}
+
+
+/// C18: the application replaces the value of an external PSK under the same id (a rotated secret): every party that
+/// held the common value registers the new one, some parties that had nothing register it for the first time. What a
+/// party registered last is what it holds - the store must hand exactly that to the library from now on.
+pub fn do_psk_rotate(w: &mut World, id: u64, pick: u64) -> VResult<bool> {
+    let id = (id % 4) as u8;
+    let key = vec![b'k', id];
+    let prop = w.cfg.property.clone();
+    // a value is replaced between two uses, not while a commit or a Welcome made with the old one is under way
+    for g in 0..w.groups.len() {
+        let latest = w.groups[g].log.len() as u64;
+        if w.groups[g].candidates.get(&latest).map(|c| !c.is_empty()).unwrap_or(false) {
+            return Ok(false);
+        }
+        for p in 0..w.parties.len() {
+            let Some(m) = w.mem_ref(p, g) else { continue };
+            if m.welcome.is_some() || m.ext_pending.is_some() || m.pending.is_some() || !m.detached.is_empty() {
+                return Ok(false);
+            }
+            if m.group.is_some() && matches!(m.status, Status::Member) && w.epoch_of(p, g) != Some(latest) {
+                return Ok(false);
+            }
+        }
+    }
+    let new_value = crate::prng::Prng::new(crate::prng::mix(&[w.seed, 0x9507, id as u64, w.step_no as u64])).bytes(32);
+    // the value most parties hold now
+    let mut counts: BTreeMap<Vec<u8>, usize> = BTreeMap::new();
+    for p in 0..w.parties.len() {
+        if let Some(v) = w.parties[p].pskstore.peek(&key) {
+            *counts.entry(v).or_default() += 1;
+        }
+    }
+    let Some(common) = counts.into_iter().max_by_key(|(_, n)| *n).map(|(v, _)| v) else { return Ok(false) };
+    w.stats.op("psk_rotate");
+    for p in 0..w.parties.len() {
+        let cur = w.parties[p].pskstore.peek(&key);
+        let give = match &cur {
+            Some(v) => *v == common,
+            None => crate::prng::mix(&[w.seed, pick, p as u64, 0x9508]) % 3 == 0,
+        };
+        if !give {
+            continue;
+        }
+        w.parties[p].pskstore.put(&key, &new_value);
+        w.stats.check("registered-psk-is-the-one-the-store-returns");
+        if w.parties[p].pskstore.stored(&key).as_deref() != Some(&new_value[..]) {
+            return Err(Violation::new(
+                &prop,
+                "psk-holders",
+                format!("psk-store-returns-another-value:{}", if cur.is_some() { "replaced" } else { "first" }),
+                format!("P{p}: after the application registered a new value for external PSK k{id} ({}), the PSK store returns another value to the library", if cur.is_some() { "replacing an older one" } else { "for the first time" }),
+            ));
+        }
+    }
+    w.ev(format!("psk-rotate k{id}"));
+    Ok(true)
+}
+
+/// C14: hand-made Ed25519 verification inputs that no honest signer produces - public key and R taken from the
+/// points of small order, S = 0 or a non-canonical S - go through the provider seam like any other verification:
+/// the primary and the cross provider must give the same verdict.
+pub fn do_crafted_verify(w: &mut World, p: usize, pick: u64) -> VResult<bool> {
+    if !matches!(w.cfg.suite, 1 | 3) || p >= w.parties.len() {
+        return Ok(false);
+    }
+    // encodings of the eight points of small order on edwards25519 (and two non-canonical encodings of them)
+    const SMALL: [&str; 10] = [
+        "0100000000000000000000000000000000000000000000000000000000000000",
+        "ecffffffffffffffffffffffffffffffffffffffffffffffffffffffffffff7f",
+        "0000000000000000000000000000000000000000000000000000000000000000",
+        "0000000000000000000000000000000000000000000000000000000000000080",
+        "26e8958fc2b227b045c3f489f2ef98f0d5dfac05d3c63339b13802886d53fc05",
+        "26e8958fc2b227b045c3f489f2ef98f0d5dfac05d3c63339b13802886d53fc85",
+        "c7176a703d4dd84fba3c0b760d10670f2a2053fa2c39ccc64ec7fd7792ac037a",
+        "c7176a703d4dd84fba3c0b760d10670f2a2053fa2c39ccc64ec7fd7792ac03fa",
+        "0100000000000000000000000000000000000000000000000000000000000080",
+        "eeffffffffffffffffffffffffffffffffffffffffffffffffffffffffffff7f",
+    ];
+    let pk = hex::decode(SMALL[(pick % 10) as usize]).unwrap_or_default();
+    let r = hex::decode(SMALL[((pick / 10) % 10) as usize]).unwrap_or_default();
+    let s: Vec<u8> = match (pick / 100) % 3 {
+        0 => vec![0u8; 32],
+        // L (the group order): a non-canonical encoding of S = 0
+        1 => hex::decode("edd3f55c1a631258d69cf7a2def9de1400000000000000000000000000000010").unwrap_or_default(),
+        _ => {
+            let mut v = vec![0u8; 32];
+            v[0] = 1;
+            v
+        }
+    };
+    let (pi, ri, si) = ((pick % 10) as usize, ((pick / 10) % 10) as usize, ((pick / 100) % 3) as usize);
+    let sig = [r, s].concat();
+    let data = crate::prng::Prng::new(crate::prng::mix(&[w.seed, pick, 0xc4af])).bytes((pick % 40) as usize);
+    w.stats.op("crafted_verify");
+    w.stats.fault("K-SMALL-ORDER");
+    let prop = w.cfg.property.clone();
+    let suite = w.suite;
+    let mut verdicts: Vec<(&'static str, bool)> = vec![];
+    for kind in [crate::crypto::ProviderKind::RustCrypto, crate::crypto::ProviderKind::OpenSsl, crate::crypto::ProviderKind::AwsLc] {
+        use mls_rs::CryptoProvider;
+        let Some(csp) = crate::crypto::SimCrypto::new(kind, w.parties[p].ctx.clone()).cipher_suite_provider(suite) else {
+            continue;
+        };
+        let r = guarded(&prop, "verify(crafted Ed25519 input)", || {
+            use mls_rs::CipherSuiteProvider;
+            Ok::<_, MlsError>(csp.verify(&pk.clone().into(), &sig, &data))
+        })?;
+        verdicts.push((kind.name(), matches!(r, Ok(Ok(())))));
+    }
+    if verdicts.len() < 2 {
+        return Ok(false);
+    }
+    *w.stats.probes.entry(format!("crafted-ed25519-verify:{}", if verdicts[0].1 { "accepted" } else { "rejected" })).or_default() += 1;
+    w.stats.check("ed25519-verdicts-agree-on-crafted-input");
+    if verdicts.iter().any(|v| v.1 != verdicts[0].1) {
+        // classes: the encoding of the public key and of R (canonical / non-canonical point of small order), S
+        let class = |i: usize| if matches!(i, 0 | 1 | 2 | 4 | 6) { "canonical" } else { "non-canonical" };
+        let skind = ["zero", "group-order", "one"][si];
+        let pattern: Vec<String> = verdicts.iter().map(|(n, ok)| format!("{n}={}", if *ok { "accept" } else { "reject" })).collect();
+        let sigs = format!("ed25519-verdicts-differ:pk-{}:r-{}:s-{skind}:{}", class(pi), class(ri), pattern.join(","));
+        if std::env::var("VERIF_C14_ENUM").is_ok() {
+            eprintln!("ENUM {sigs} pk={} r={}", SMALL[pi], SMALL[ri]);
+            return Ok(true);
+        }
+        if w.known.iter().any(|k| *k == sigs) {
+            w.ext.known_hits.push(sigs);
+            return Ok(true);
+        }
+        return Err(Violation::new(
+            &prop,
+            "ed25519-verdicts-agree",
+            sigs,
+            format!(
+                "the providers disagree on a hand-made Ed25519 verification: public key {} (small order), R {}, S {skind}, {} byte message: {}",
+                SMALL[pi],
+                SMALL[ri],
+                data.len(),
+                pattern.join(", ")
+            ),
+        ));
     }
     Ok(true)
 }
